@@ -5,6 +5,7 @@ base repository template
 __all__ = ("CategoryLazyFrozenSet", "PackageMapping", "VersionMapping", "tree")
 
 import typing
+from itertools import chain
 from pathlib import Path
 
 from snakeoil.klass import jit_attr
@@ -14,7 +15,6 @@ from snakeoil.sequences import iflatten_instance
 from ..ebuild.atom import atom
 from ..operations import repo
 from ..restrictions import boolean, packages, restriction, values
-from ..restrictions.util import collect_package_restrictions
 
 
 class CategoryLazyFrozenSet:
@@ -314,16 +314,30 @@ class tree:
             elif yield_none:
                 yield None
 
+    @staticmethod
+    def _required_restrictions(solution, attr):
+        """Yield the value restrictions that every match of a conjunction must satisfy for attr.
+
+        Only direct members count: restrictions nested in a negated or counting
+        (exactly-one-of, at-most-one-of) node, or in a Negate wrapper, do not have
+        to hold for the conjunction to match.
+        """
+        for r in solution:
+            if isinstance(r, packages.PackageRestriction) and r.attrs == (attr,):
+                yield restriction.Negate(r.restriction) if r.negate else r.restriction
+
     def _identify_candidates(self, restrict, sorter):
         # full expansion
-        if not isinstance(restrict, boolean.base) or isinstance(restrict, atom):
-            return self._fast_identify_candidates(restrict, sorter)
+        if isinstance(restrict, boolean.base):
+            solutions = restrict.iter_dnf_solutions(True)
+        else:
+            solutions = [[restrict]]
         dsolutions = [
             (
-                [c.restriction for c in collect_package_restrictions(x, ("category",))],
-                [p.restriction for p in collect_package_restrictions(x, ("package",))],
+                list(self._required_restrictions(x, "category")),
+                list(self._required_restrictions(x, "package")),
             )
-            for x in restrict.iter_dnf_solutions(True)
+            for x in solutions
         ]
 
         # see if any solution state isn't dependent on cat/pkg in anyway.
@@ -371,34 +385,21 @@ class tree:
             cats_iter = (c for c in sorter(self.categories) if cr.match(c))
             return ((c, p) for c in cats_iter for p in sorter(pgetter(c, [])))
 
-        return self._fast_identify_candidates(restrict, sorter)
+        return self._fast_identify_candidates(dsolutions, sorter)
 
-    def _fast_identify_candidates(self, restrict, sorter):
-        pkg_restrict = set()
-        cat_restrict = set()
+    def _fast_identify_candidates(self, dsolutions, sorter):
+        # every solution constrains the same attributes here, thus a candidate
+        # has to satisfy one of the collected restrictions per constrained attribute
+        cat_restrict = set(chain.from_iterable(x[0] for x in dsolutions))
+        pkg_restrict = set(chain.from_iterable(x[1] for x in dsolutions))
         cat_exact = set()
         pkg_exact = set()
-
-        for x in collect_package_restrictions(
-            restrict,
-            (
-                "category",
-                "package",
-            ),
-        ):
-            if x.attr == "category":
-                cat_restrict.add(x.restriction)
-            elif x.attr == "package":
-                pkg_restrict.add(x.restriction)
 
         for e, s in ((pkg_exact, pkg_restrict), (cat_exact, cat_restrict)):
             l = [x for x in s if isinstance(x, values.StrExactMatch) and not x.negate]
             s.difference_update(l)
             e.update(x.exact for x in l)
         del l
-
-        if restrict.negate:
-            cat_exact = pkg_exact = ()
 
         if cat_exact:
             if not cat_restrict and len(cat_exact) == 1:
@@ -414,7 +415,7 @@ class tree:
                 cat_restrict.add(values.ContainmentMatch(frozenset(cat_exact)))
                 cats_iter = sorter(self._cat_filter(cat_restrict))
         elif cat_restrict:
-            cats_iter = self._cat_filter(cat_restrict, negate=restrict.negate)
+            cats_iter = self._cat_filter(cat_restrict)
         else:
             cats_iter = sorter(self.categories)
 
@@ -429,7 +430,7 @@ class tree:
                 pkg_restrict.add(values.ContainmentMatch(frozenset(pkg_exact)))
 
         if pkg_restrict:
-            return self._package_filter(cats_iter, pkg_restrict, negate=restrict.negate)
+            return self._package_filter(cats_iter, pkg_restrict)
         elif not cat_restrict:
             if sorter is iter and not cat_exact:
                 return self.versions
